@@ -51,14 +51,14 @@ def total_packets(cfg):
     start, pack = sc.build(cfg)
     s = Session(start, pack, flavour=cfg[5], schedule=(0,), record=())
     try:
-        s.run()
+        outcome, _ = s.run()
     finally:
         s.close()
-    return len(s.packets)
+    return len(s.packets), outcome
 
 
 def fork_job(args):
-    cfg, k, cont = args
+    cfg, k, cont, full_outcome = args
     start, pack = sc.build(cfg)
     fl = cfg[5]
     tid = "%s|k=%d|%s" % (sc.tid_of(cfg), k, cont)
@@ -93,6 +93,7 @@ def fork_job(args):
         with a.cdb_rec.paused():
             verified = [l for l in range(len(a.classdb.label_to_info)) if a.ruledb.is_verified(l)]
         events.append({"op": "interrupt", "handed": handed, "expanded": [p["p"] for p in a.packets], "verified": verified})
+        events.append({"op": "slicing", "full": full_outcome, "resumed": oa})
         out["resume"] = {"tid": tid, "events": events, "sig": "flavour=%s" % fl}
         sh = a.q_rec.shape()
         out["queue"] = {"shape": [sh[0], sh[1], list(sh[2])], "trace": {"tid": tid, "events": a.ev["queue"]}}
@@ -121,7 +122,7 @@ def run(tier: str, seed: int) -> int:
                 base.append(("", p, "ab", st, pk, fl, "one", True))
     totals = pmap(total_packets, base, procs=16, chunk=1)
     jobs = []
-    for cfg, K in zip(base, totals):
+    for cfg, (K, full_outcome) in zip(base, totals):
         ks = list(range(0, K + 1))
         if tier == "quick" and len(ks) > 5:
             ks = sorted(set([0, 1, K] + rnd.sample(ks, 2)))
@@ -129,7 +130,7 @@ def run(tier: str, seed: int) -> int:
             for cont in CONT:
                 if tier == "quick" and rnd.random() < 0.5:
                     continue
-                jobs.append((cfg, k, cont))
+                jobs.append((cfg, k, cont, full_outcome))
     res = [r for r in pmap(fork_job, jobs, procs=16, chunk=2) if not r["skipped"]]
     resume = [r["resume"] for r in res]
     for r in res:
@@ -168,7 +169,7 @@ def run(tier: str, seed: int) -> int:
 def selftest(seed: int) -> int:
     run_ = Run("C17", "quick", seed)
     cfg = ("", ("aa",), "ab", "s0", "plain", "default", "one", True)
-    good = fork_job((cfg, 2, "single"))["resume"]
+    good = fork_job((cfg, 2, "single", "spec"))["resume"]
     bad1 = json.loads(json.dumps(good)); bad1["tid"] = "corrupt"
     bad1["events"][1]["b"]["ver"][0] ^= 1
     bad2 = json.loads(json.dumps(good)); bad2["tid"] = "dropped"
